@@ -53,6 +53,13 @@ def same_value(a, b, typed=True):
         return type(a) is type(b) and len(a) == len(b) and all(same_value(x, y, typed) for x, y in zip(a, b))
     if typed and type(a) is not type(b):
         return False
+    if not typed and (isinstance(a, (float, complex)) or isinstance(b, (float, complex))):
+        # floating point involved (untyped comparison): dropping a neutral 1.0 or re-associating a sum
+        # changes rounding / exactness, not the mathematical value
+        try:
+            return abs(complex(a) - complex(b)) <= 1e-9 * max(1.0, abs(complex(a)), abs(complex(b)))
+        except Exception:  # noqa: BLE001
+            pass
     try:
         return bool(a == b)
     except Exception:  # noqa: BLE001
